@@ -394,6 +394,23 @@ func runCrashCase(cc crashCase) crashResult {
 			if err == nil {
 				last = extra
 			}
+			// the save after a failed one: it is acknowledged, so the store holds exactly its snapshot (nothing the failed
+			// attempt left behind - in memory or on disk - may leak into it)
+			rec := mkSnapshot(fmt.Sprintf("R%d", k), 1+k%3)
+			inprog = -2
+			ck.allowed = func() []string { return []string{canon(last), canon(extra), canon(rec)} }
+			vos.H = &vos.Hooks{After: func(op, path string) { ck.inspect(op+"(save-after-fault)", path) }}
+			rerr := ds.Save(rec)
+			vos.H = nil
+			if rerr != nil {
+				ck.add("save-after-fault-fails", fmt.Sprintf("the save following a save whose call #%d failed returns %v", k, rerr))
+			} else {
+				l2, lerr2 := ds.Load()
+				if lerr2 != nil || canon(l2) != canon(rec) {
+					ck.add("save-after-fault-not-stored", fmt.Sprintf("after a save whose call #%d failed, the next save returned nil but a load returns err=%v and not its snapshot", k, lerr2))
+				}
+				last = rec
+			}
 		}
 	}
 	res.Points, res.Cuts, res.Execs, res.Viol = ck.points, ck.writeCuts, 1+res.FaultRuns, ck.viol
